@@ -1479,7 +1479,7 @@ def extra_phases(farm, tier, args, scratch, agg):
     # (quick: all of them under one seed + a sample under a second one).
     ok_jobs = [j for j, d in sorted(agg.digests.items()) if d[0] is not None and j < 10_000_000
                and j in agg.step_digests]
-    plans = [("1", ok_jobs if tier == "quick" else ok_jobs[:3000]),
+    plans = [("1", ok_jobs if tier == "quick" else ok_jobs[:6000]),
              (str(2 + (args.seed * 7919) % 4000), ok_jobs[::max(1, len(ok_jobs) // (32 if tier == "quick" else 400))])]
     mismatches = 0
     compared = 0
